@@ -264,6 +264,8 @@ IdealSoundness ==
    once a gate or a constant/commitment weight uses it). *)
 VStatementHolds ==
   /\ PLen(cs.P) = VLen(cs.V)
+  \* the verifier was handed exactly the prover's commitments, in the prover's order
+  /\ cs.V.V = [j \in 1 .. Len(cs.P.v) |-> Commit(env.P, cs.P.v[j], cs.P.vb[j])]
   /\ \A q \in 1 .. Len(cs.V.cons) : PEval(cs.P, cs.V.cons[q]) = 0
 BasesAgree == env.V.Bb = env.P.Bb /\ (PLen(cs.P) >= 1 => env.V.B = env.P.B)
 StatementBinding ==
